@@ -401,7 +401,11 @@ func (s *sys) deliver(e *discovery.Event, a, b int) {
 			}
 		}
 	}
-	ownRand(len(s.repoLive()), a, b)
+	if e.Type == discovery.DatabaseConfigChanged {
+		// the only handler that reaches shard_assign.go. (Seeding costs ~10us; should another handler ever draw from
+		// math/rand, its outcome would differ between replays and the engine reports the nondeterministic replay.)
+		ownRand(len(rec.liveAtCall), a, b)
+	}
 	rec.panicked = master.VerifProcessEvent(s.sm, e)
 	if rec.db != "" {
 		rec.repoAfter, rec.hasAfter = s.repoAssign(rec.db)
@@ -578,8 +582,10 @@ func (s *sys) Invariant(_ string, ev string) []vxstate.Finding {
 				}
 			}
 		}
-		// placement clause on the manager's view: exactly rf distinct replicas per shard
-		if c := s.cfgOf(d); c != nil {
+		// placement clause on the manager's view: exactly rf distinct replicas per shard (synchronous model only:
+		// with lagging watchers the manager's config and its assignment may legitimately belong to two incarnations
+		// of the database; there the clause is checked on the handler call that creates the shards)
+		if c := s.cfgOf(d); c != nil && s.cfg.Lag == 0 {
 			for _, id := range sids {
 				reps, ok := asg[id]
 				if !ok {
